@@ -36,12 +36,14 @@ eB == [phase |-> 1, fabric |-> 5, regime |-> 4, n |-> 3]
 eC == [phase |-> 0, fabric |-> 3, regime |-> 6, n |-> 4]
 ECfg(m) == IF m = "a" THEN eA ELSE IF m = "b" THEN eB ELSE eC
 Built == {"a", "b", "c"}
+\* mineral b holds client-supplied arrays in an unusual memory representation (not C-contiguous)
+ETex(m) == IF m = "b" THEN "layout" ELSE "random"
 EnumInit == /\ cfg = [m \in Minerals |-> IF m \in Built THEN ECfg(m) ELSE NULL]
-            /\ hist = [m \in Minerals |-> IF m \in Built THEN << [o |-> InitO(7, ECfg(m).n, "random"), f |-> InitF(ECfg(m).n, "random")] >> ELSE <<>>]
+            /\ hist = [m \in Minerals |-> IF m \in Built THEN << [o |-> InitO(7, ECfg(m).n, ETex(m)), f |-> InitF(ECfg(m).n, ETex(m))] >> ELSE <<>>]
             /\ nUpd = [m \in Minerals |-> 0] /\ Fm = [m \in Minerals |-> <<>>]
             /\ disk = [f \in Files |-> <<>>] /\ err = "None" /\ ops = 0
             /\ log = << [a |-> "Create", m |-> "a", c |-> eA, seed |-> 7, tex |-> "random"],
-                        [a |-> "Create", m |-> "b", c |-> eB, seed |-> 7, tex |-> "random"],
+                        [a |-> "Create", m |-> "b", c |-> eB, seed |-> 7, tex |-> "layout"],
                         [a |-> "Create", m |-> "c", c |-> eC, seed |-> 7, tex |-> "random"] >>
 KthSaver == <<"a", "b", "c">>
 EnumNext == \/ ops < 3 /\ \E m \in Built, pf \in Postfixes :
